@@ -47,21 +47,23 @@ type allocFamily struct {
 }
 
 var (
-	c19Buf      rjson.Buffer
-	c19Buf2     rjson.Buffer
-	c19Dst      = make([]byte, 0, 1<<16)
-	c19Decline  = rjson.ArrayValueHandler(rjson.ArrayValueHandlerFunc(func([]byte) (int, error) { return 0, nil }))
-	c19DeclineO = rjson.ObjectValueHandler(rjson.ObjectValueHandlerFunc(func(_, _ []byte) (int, error) { return 0, nil }))
-	c19Skip     = rjson.ArrayValueHandler(rjson.ArrayValueHandlerFunc(func(d []byte) (int, error) { return rjson.SkipValue(d, &c19Buf2) }))
-	c19SkipO    = rjson.ObjectValueHandler(rjson.ObjectValueHandlerFunc(func(_, d []byte) (int, error) { return rjson.SkipValue(d, &c19Buf2) }))
-	c19F        float64
-	c19I64      int64
-	c19I32      int32
-	c19I        int
-	c19U64      uint64
-	c19U32      uint32
-	c19U        uint
-	c19B        bool
+	c19Buf       rjson.Buffer
+	c19Buf2      rjson.Buffer
+	c19Dst       = make([]byte, 0, 1<<16)
+	c19Decline   = rjson.ArrayValueHandler(rjson.ArrayValueHandlerFunc(func([]byte) (int, error) { return 0, nil }))
+	c19DeclineO  = rjson.ObjectValueHandler(rjson.ObjectValueHandlerFunc(func(_, _ []byte) (int, error) { return 0, nil }))
+	c19Skip      = rjson.ArrayValueHandler(rjson.ArrayValueHandlerFunc(func(d []byte) (int, error) { return rjson.SkipValue(d, &c19Buf2) }))
+	c19SkipO     = rjson.ObjectValueHandler(rjson.ObjectValueHandlerFunc(func(_, d []byte) (int, error) { return rjson.SkipValue(d, &c19Buf2) }))
+	c19SkipSame  = rjson.ArrayValueHandler(rjson.ArrayValueHandlerFunc(func(d []byte) (int, error) { return rjson.SkipValue(d, &c19Buf) }))
+	c19SkipSameO = rjson.ObjectValueHandler(rjson.ObjectValueHandlerFunc(func(_, d []byte) (int, error) { return rjson.SkipValueFast(d, &c19Buf) }))
+	c19F         float64
+	c19I64       int64
+	c19I32       int32
+	c19I         int
+	c19U64       uint64
+	c19U32       uint32
+	c19U         uint
+	c19B         bool
 )
 
 func firstByte(w []byte) byte {
@@ -90,6 +92,9 @@ func allocFamilies() []allocFamily {
 		{"HandleObjectValues/decline", func(w []byte) bool { _, err := rjson.HandleObjectValues(w, c19DeclineO, &c19Buf); return err == nil }, warmBufs, func(w []byte) bool { b := firstByte(w); return b == '{' || b == 'n' }},
 		{"HandleArrayValues/skipping-handler", func(w []byte) bool { _, err := rjson.HandleArrayValues(w, c19Skip, &c19Buf); return err == nil }, warmBufs, func(w []byte) bool { return firstByte(w) == '[' }},
 		{"HandleObjectValues/skipping-handler", func(w []byte) bool { _, err := rjson.HandleObjectValues(w, c19SkipO, &c19Buf); return err == nil }, warmBufs, func(w []byte) bool { return firstByte(w) == '{' }},
+		// handlers that re-enter the library with the SAME warmed Buffer (the repository's own benchmark idiom)
+		{"HandleArrayValues/handler-reenters-same-buffer", func(w []byte) bool { _, err := rjson.HandleArrayValues(w, c19SkipSame, &c19Buf); return err == nil }, warmBufs, func(w []byte) bool { return firstByte(w) == '[' }},
+		{"HandleObjectValues/handler-reenters-same-buffer", func(w []byte) bool { _, err := rjson.HandleObjectValues(w, c19SkipSameO, &c19Buf); return err == nil }, warmBufs, func(w []byte) bool { return firstByte(w) == '{' }},
 		{"ReadStringBytes", func(w []byte) bool { _, _, err := rjson.ReadStringBytes(w, c19Dst[:0]); return err == nil }, nil, func(w []byte) bool { return firstByte(w) == '"' }},
 		{"UnescapeStringContent", func(w []byte) bool { _, _, err := rjson.UnescapeStringContent(w, c19Dst[:0]); return err == nil }, nil, nil},
 		// the property's minimal precondition: spare capacity of exactly the input length
@@ -288,6 +293,71 @@ func c19(r *eng.Run) {
 		}
 		runtime.GC()
 	}
+	// After-GC pass: pools (sync.Pool) are emptied by two GC cycles; a successful call that
+	// allocates only when a pool is empty still allocates. Measured on the non-exploration nodes
+	// (documents, large inputs, float literals): GC twice, one pass over the batch, three times;
+	// a batch is suspect only if it allocates in all three, then it is bisected the same way.
+	var small [][]byte
+	for i, w := range nodes[bfsNodes:] {
+		if i%3 == 0 || len(w) > 400 {
+			small = append(small, w)
+		}
+	}
+	afterGC := func(f allocFamily, in [][]byte) uint64 {
+		min := uint64(math.MaxUint64)
+		for i := 0; i < 3; i++ {
+			runtime.GC()
+			runtime.GC()
+			if m := mallocsOnce(f, in); m < min {
+				min = m
+			}
+			if min == 0 {
+				break
+			}
+		}
+		return min
+	}
+	var bisectGC func(f allocFamily, in [][]byte, out *[][]byte)
+	bisectGC = func(f allocFamily, in [][]byte, out *[][]byte) {
+		if len(*out) >= 3 || afterGC(f, in) == 0 {
+			return
+		}
+		if len(in) == 1 {
+			*out = append(*out, in[0])
+			return
+		}
+		bisectGC(f, in[:len(in)/2], out)
+		bisectGC(f, in[len(in)/2:], out)
+	}
+	gcMeasured := 0
+	for _, f := range allocFamilies() {
+		var ok [][]byte
+		for _, w := range small {
+			if f.accept != nil && !f.accept(w) {
+				continue
+			}
+			if f.warm != nil {
+				f.warm(w)
+			}
+			if f.call(w) {
+				ok = append(ok, w)
+			}
+		}
+		for i := 0; i < len(ok); i += 2048 {
+			j := i + 2048
+			if j > len(ok) {
+				j = len(ok)
+			}
+			gcMeasured += j - i
+			var bad [][]byte
+			bisectGC(f, ok[i:j], &bad)
+			for _, w := range bad {
+				r.Violation(eng.Replay{Engine: "alloc", Entry: f.name, Sig: "allocates-after-gc/" + f.name + "/" + shortSig(w), InputB64: w, Expected: "0 heap allocations on a successful call, also right after garbage collections (empty pools)", Got: fmt.Sprintf("%d allocations in the first call after two GC cycles (3 of 3 trials)", afterGC(f, [][]byte{w})),
+					Extra: map[string]interface{}{"family": f.name, "after_gc": true}})
+			}
+		}
+	}
+	r.Set("after_gc_measured_calls", gcMeasured)
 	e1Evidence(r, D, 1, res)
 	r.Set("successful_nodes_by_entry_point", perFamily)
 	r.Set("measured_calls", measured)
